@@ -43,7 +43,7 @@ def names_record(case):
 
 def _names_record(case):
     src = tables.source(case["src"])
-    q = O.build(src, case["ops"])
+    q = O.build(src, case["ops"], method=case.get("method", "tasks"))
     rec = {}
     for st, plan in plans_of(q).items():
         names = sorted(n._name for n in plan.walk())
@@ -353,7 +353,7 @@ def _evaluate(case):
     info, viols = {}, []
     try:
         src = tables.source(case["src"])
-        q = O.build(src, case["ops"])
+        q = O.build(src, case["ops"], method=case.get("method", "tasks"))
         info["kind"] = O.kind_of(q)
         info["skey"] = ekey(q.expr)
     except CaseTimeout:
